@@ -12,10 +12,13 @@ EXTENDS Naturals, Sequences, TLC
 
 CONSTANTS Kinds, MaxSt, MaxDepth, MaxSteps
 
-Callable(k) == k \in {"lambda", "closure", "rec", "cinst", "ccls_inst"}
-Stateful(k) == k \in {"closure", "cinst", "inst", "ccls_inst", "cls_inst"}
-IsClass(k) == k \in {"ccls", "cls"}
-InstKind(k) == IF k = "ccls" THEN "ccls_inst" ELSE "cls_inst"
+\* kinds: functions (lambda, closure with a counter, recursive), instances (cinst: callable, inst: not, icinst: callable
+\* through a __call__ it INHERITS from a base class), classes (ccls / cls / icls likewise) and the instances built by
+\* calling a wrapped class (*_inst)
+Callable(k) == k \in {"lambda", "closure", "rec", "cinst", "ccls_inst", "icinst", "icls_inst"}
+Stateful(k) == k \in {"closure", "cinst", "inst", "ccls_inst", "cls_inst", "icinst", "icls_inst"}
+IsClass(k) == k \in {"ccls", "cls", "icls"}
+InstKind(k) == IF k = "ccls" THEN "ccls_inst" ELSE IF k = "icls" THEN "icls_inst" ELSE "cls_inst"
 None == [kind |-> "none", st |-> 0, w |-> <<>>, viaClass |-> FALSE]
 
 VARIABLES orig, copy, last, out, steps
@@ -55,7 +58,7 @@ Call(which, arg) ==
 Bump(which) ==
   /\ Tick
   /\ LET h == IF which = "orig" THEN orig ELSE copy IN
-     /\ h.kind \in {"inst", "cls_inst", "cinst", "ccls_inst"} /\ h.st < MaxSt
+     /\ h.kind \in {"inst", "cls_inst", "cinst", "ccls_inst", "icinst", "icls_inst"} /\ h.st < MaxSt
      /\ IF which = "orig" THEN orig' = [orig EXCEPT !.st = @ + 1] /\ UNCHANGED copy
         ELSE copy' = [copy EXCEPT !.st = @ + 1] /\ UNCHANGED orig
   /\ last' = <<"bump", which>> /\ out' = "ok"
